@@ -39,7 +39,7 @@ def gen_trace(seed, world, tier, mode=None):
         m, n = n, m
     if kind == "rsp_rowvar" and (m > n) != wrong:
         m, n = n, m
-    wrong = wrong and m != n
+    wrong = wrong and m != n and kind in ("rsp_colvar", "rsp_rowvar", "hybrid", "cgne", "cgne_prec")
     k = min(m, n)
     cond = 10.0 ** R.choice([0, 1, 1, 2, 3])
     A = {"gen": "psvd", "m": m, "n": n, "seed": R.randrange(10 ** 6),
@@ -212,12 +212,11 @@ class Hooks(BaseHooks):
             s = cfg.get("test_sketch_size", 8) if kind.startswith("rsp") else min(6, n)
             if tags.get("wrong_orientation"):
                 # answered although out of domain: no documented proxy; demand the plain statement
-                K = 1.0
-                if conv and true > 10.0 * tol + 1e-13 * mt["cond"]:
+                K = None    # the sketch-derived constant does not apply; only the plain statement is demanded
+                if conv and true > 100.0 * tol + 1e-13 * mt["cond"]:
                     viol.append(V("sound_flag", i,
                                   f"{kind} answered a {m}x{n} input in the wrong orientation with converged=True but "
                                   f"||{'XA' if col else 'AX'} - I||_F/sqrt({d}) = {true:.3e} (tol {tol:g})"))
-                    K = None
             elif len(draws) >= 4 and all(dr.shape == (d, s) for dr in draws[:4]):
                 Pi = qalg.from_comps(np.stack(draws[:4], axis=-1))
                 nPi = qalg.fro(Pi)
